@@ -512,74 +512,235 @@ func rulePostingsValidate(c *core.Ctx) {
 		}
 		return true
 	})
-	if loop == nil || loop.Value == nil {
+	if loop == nil {
 		c.Fail("DOM/postings-validate", key+":loop", pos(c, d.Decl), "Postings.Validate does not range over the postings")
 		return
 	}
-	pv := types.ExprString(loop.Value)
-	want := map[string]string{
-		pv + ".Amount == nil":                               "nil amount",
-		pv + ".Amount.Cmp(Zero) < 0":                        "negative amount",
-		"!accounts.ValidateAddress(" + pv + ".Source)":      "invalid source",
-		"!accounts.ValidateAddress(" + pv + ".Destination)": "invalid destination",
-		"!assets.IsValid(" + pv + ".Asset)":                 "invalid asset",
+	pv := ""
+	switch {
+	case loop.Value != nil && !isBlankIdent(loop.Value):
+		pv = types.ExprString(loop.Value)
+	case loop.Key != nil && !isBlankIdent(loop.Key):
+		pv = types.ExprString(loop.X) + "[" + types.ExprString(loop.Key) + "]"
+	default:
+		c.Fail("DOM/postings-validate", key+":loop", pos(c, d.Decl), "Postings.Validate does not look at the postings it ranges over")
+		return
 	}
-	// every error return inside the loop rejects the postings satisfying the (single) positive
-	// condition it sits under — an `if`, an `if a || b`, or the case of a tagless switch
+	want := map[string]string{
+		"$p.Amount == nil":                        "nil amount",
+		"$p.Amount.Cmp(Zero) < 0":                 "negative amount",
+		"!accounts.ValidateAddress($p.Source)":      "invalid source",
+		"!accounts.ValidateAddress($p.Destination)": "invalid destination",
+		"!assets.IsValid($p.Asset)":                 "invalid asset",
+	}
+	// every error return rejects the postings satisfying the (single) positive condition it sits
+	// under — an `if`, an `if a || b`, or the case of a tagless switch — in the loop body or in a
+	// same-package helper the loop hands the posting to and whose error it returns
 	got := map[string]bool{}
-	ast.Inspect(loop.Body, func(n ast.Node) bool {
-		r, ok := n.(*ast.ReturnStmt)
-		if !ok || isErrorReturn(info, d.Decl.Body, r) != 1 {
+	opaque := false // the posting is handed to something this rule does not read
+	var esc ast.Node
+	ix := index(c)
+	var scan func(fnBody, body *ast.BlockStmt, pvText string, inHelper bool, depth int)
+	scan = func(fnBody, body *ast.BlockStmt, pvText string, inHelper bool, depth int) {
+		isPV := func(e ast.Expr) bool {
+			e = ast.Unparen(e)
+			if u, ok := e.(*ast.UnaryExpr); ok && u.Op == token.AND {
+				e = u.X
+			}
+			return types.ExprString(e) == pvText
+		}
+		// helper calls: `err := h(pv)` (statement or if-init) followed by `if err != nil { return …, err }`
+		follow := func(call *ast.CallExpr, errObj types.Object, after []ast.Stmt, ifst *ast.IfStmt) bool {
+			f := astx.Callee(info, call)
+			if f == nil || depth >= 2 {
+				return false
+			}
+			hd := ix.Decls[f]
+			if hd == nil || hd.Decl.Body == nil || hd.Pkg != d.Pkg || hd.Decl.Type.Params == nil {
+				return false
+			}
+			param, k := "", 0
+			for _, fl := range hd.Decl.Type.Params.List {
+				for _, nm := range fl.Names {
+					if k < len(call.Args) && isPV(call.Args[k]) {
+						param = nm.Name
+					}
+					k++
+				}
+			}
+			if param == "" {
+				return false
+			}
+			// the error is returned when non-nil
+			propagated := false
+			check := func(st *ast.IfStmt) {
+				be, ok := ast.Unparen(st.Cond).(*ast.BinaryExpr)
+				if !ok || be.Op != token.NEQ || !astx.IsNilExpr(info, be.Y) {
+					return
+				}
+				id, ok := ast.Unparen(be.X).(*ast.Ident)
+				if !ok || info.ObjectOf(id) != errObj || len(st.Body.List) == 0 {
+					return
+				}
+				if r, ok := st.Body.List[len(st.Body.List)-1].(*ast.ReturnStmt); ok {
+					if lr := lastResult(r); lr != nil && !astx.IsNilExpr(info, lr) {
+						propagated = true
+					}
+				}
+			}
+			if ifst != nil {
+				check(ifst)
+			}
+			for _, st := range after {
+				if is, ok := st.(*ast.IfStmt); ok && is.Init == nil {
+					check(is)
+					break
+				}
+			}
+			if !propagated {
+				return false
+			}
+			scan(hd.Decl.Body, hd.Decl.Body, param, true, depth+1)
 			return true
 		}
-		// the condition governing the return: an `if` or a tagless switch that is a statement of
-		// the loop body itself (a rejection nested under a further condition does not count)
-		var cond ast.Expr
-		for _, x := range loop.Body.List {
-			switch v := x.(type) {
-			case *ast.IfStmt:
-				if v.Body.Pos() <= r.Pos() && r.End() <= v.Body.End() && v.Init == nil {
-					cond = v.Cond
+		errCallOf := func(st ast.Stmt) (*ast.CallExpr, types.Object) {
+			as, ok := st.(*ast.AssignStmt)
+			if !ok || len(as.Rhs) != 1 || len(as.Lhs) < 1 {
+				return nil, nil
+			}
+			call, ok := ast.Unparen(as.Rhs[0]).(*ast.CallExpr)
+			if !ok {
+				return nil, nil
+			}
+			id, ok := as.Lhs[len(as.Lhs)-1].(*ast.Ident)
+			if !ok {
+				return nil, nil
+			}
+			return call, info.ObjectOf(id)
+		}
+		followed := map[*ast.CallExpr]bool{}
+		for i, st := range body.List {
+			if call, obj := errCallOf(st); call != nil && obj != nil {
+				if follow(call, obj, body.List[i+1:], nil) {
+					followed[call] = true
 				}
-			case *ast.SwitchStmt:
-				if v.Tag != nil || v.Init != nil {
-					continue
-				}
-				for _, cl := range v.Body.List {
-					cc := cl.(*ast.CaseClause)
-					if cc.Pos() <= r.Pos() && r.End() <= cc.End() && len(cc.List) >= 1 {
-						cond = cc.List[0]
-						for _, e := range cc.List[1:] {
-							cond = &ast.BinaryExpr{X: cond, Op: token.LOR, Y: e}
-						}
+			}
+			if is, ok := st.(*ast.IfStmt); ok && is.Init != nil {
+				if call, obj := errCallOf(is.Init); call != nil && obj != nil {
+					if follow(call, obj, nil, is) {
+						followed[call] = true
 					}
 				}
 			}
 		}
-		if cond != nil {
-			for _, dj := range splitOr(cond) {
-				got[normCond(types.ExprString(dj))] = true
+		// any other same-package call taking the posting is not read
+		ast.Inspect(body, func(n ast.Node) bool {
+			call, ok := n.(*ast.CallExpr)
+			if !ok || followed[call] {
+				return true
 			}
-		}
-		return true
-	})
+			f := astx.Callee(info, call)
+			if f == nil || f.Pkg() != d.Obj.Pkg() {
+				return true
+			}
+			for _, a := range call.Args {
+				if isPV(a) {
+					opaque = true
+				}
+			}
+			return true
+		})
+		ast.Inspect(body, func(n ast.Node) bool {
+			if _, isLit := n.(*ast.FuncLit); isLit {
+				return false
+			}
+			switch x := n.(type) {
+			case *ast.BranchStmt:
+				if !inHelper || x.Tok == token.GOTO {
+					esc = x
+				}
+				return true
+			case *ast.ReturnStmt:
+				cls := isErrorReturn(info, fnBody, x)
+				if cls != 1 {
+					// a success return: in the loop it skips later postings, in a helper (other
+					// than as its last statement) it skips later checks
+					last := len(body.List) > 0 && body.List[len(body.List)-1] == ast.Stmt(x)
+					if !(inHelper && last && cls == -1) {
+						esc = x
+					}
+					return true
+				}
+				r := x
+				var cond ast.Expr
+				for _, st := range body.List {
+					switch v := st.(type) {
+					case *ast.IfStmt:
+						if v.Body.Pos() <= r.Pos() && r.End() <= v.Body.End() && v.Init == nil {
+							cond = v.Cond
+						}
+					case *ast.SwitchStmt:
+						if v.Tag != nil || v.Init != nil {
+							continue
+						}
+						for _, cl := range v.Body.List {
+							cc := cl.(*ast.CaseClause)
+							if cc.Pos() <= r.Pos() && r.End() <= cc.End() && len(cc.List) >= 1 {
+								cond = cc.List[0]
+								for _, e := range cc.List[1:] {
+									cond = &ast.BinaryExpr{X: cond, Op: token.LOR, Y: e}
+								}
+							}
+						}
+					}
+				}
+				if cond != nil {
+					for _, dj := range splitOr(cond) {
+						got[normCond(replaceIdent(types.ExprString(dj), pvText, "$p"))] = true
+					}
+				}
+			}
+			return true
+		})
+	}
+	scan(d.Decl.Body, loop.Body, pv, false, 0)
 	for cond, what := range want {
-		c.Check(got[normCond(cond)], "DOM/postings-validate", key+":"+strings.ReplaceAll(what, " ", "-"), pos(c, loop), what+" rejected", "Postings.Validate does not reject a posting with "+what)
+		k := key + ":" + strings.ReplaceAll(what, " ", "-")
+		if !got[normCond(cond)] && opaque {
+			c.Unrecognised("DOM/postings-validate", k, pos(c, loop), "Postings.Validate hands the posting to a helper this rule does not read; whether a posting with "+what+" is rejected is not decided")
+			continue
+		}
+		c.Check(got[normCond(cond)], "DOM/postings-validate", k, pos(c, loop), what+" rejected", "Postings.Validate does not reject a posting with "+what)
 	}
 	// no way out of the loop other than the error returns
-	esc := ast.Node(nil)
-	ast.Inspect(loop.Body, func(n ast.Node) bool {
-		switch x := n.(type) {
-		case *ast.BranchStmt:
-			esc = x
-		case *ast.ReturnStmt:
-			if isErrorReturn(info, d.Decl.Body, x) != 1 {
-				esc = x
+	c.Check(esc == nil && astx.IsNilExpr(info, loop.Key) == false, "DOM/postings-validate", key+":every-posting", pos(c, loop), "all postings visited, all checks applied", "Postings.Validate can leave its loop (or a check helper) early (break/continue/success return): later postings or checks are skipped")
+}
+
+// replaceIdent replaces the expression text old by new in s wherever it stands as a whole operand
+// (not preceded by '.', a letter, digit or '_', and not followed by a letter, digit or '_').
+func replaceIdent(s, old, new string) string {
+	if old == "" {
+		return s
+	}
+	isW := func(b byte) bool {
+		return b == '_' || (b >= '0' && b <= '9') || (b >= 'a' && b <= 'z') || (b >= 'A' && b <= 'Z')
+	}
+	var sb strings.Builder
+	for i := 0; i < len(s); {
+		if strings.HasPrefix(s[i:], old) {
+			before := i == 0 || !(isW(s[i-1]) || s[i-1] == '.')
+			j := i + len(old)
+			after := j >= len(s) || !isW(s[j])
+			if before && after {
+				sb.WriteString(new)
+				i = j
+				continue
 			}
 		}
-		return true
-	})
-	c.Check(esc == nil && astx.IsNilExpr(info, loop.Key) == false, "DOM/postings-validate", key+":every-posting", pos(c, loop), "all postings visited", "Postings.Validate can leave its loop early (break/continue/success return): later postings are not checked")
+		sb.WriteByte(s[i])
+		i++
+	}
+	return sb.String()
 }
 
 func splitOr(e ast.Expr) []ast.Expr {
@@ -831,4 +992,9 @@ func ruleAddressConversions(c *core.Ctx) {
 			c.Check(ok, "WMC/address-conversions", declKey(d)+":"+v, pos(c, d.Decl), v+" and its error returned before the value is built", "NewValueFromString no longer validates (or ignores the verdict of) "+v+": every variable and metadata value of that type enters the VM unchecked")
 		}
 	}
+}
+
+func isBlankIdent(e ast.Expr) bool {
+	id, ok := e.(*ast.Ident)
+	return ok && id.Name == "_"
 }
